@@ -1454,3 +1454,52 @@ func TestVerifDbgC19(t *testing.T) {
 		}
 	}
 }
+
+// ---------------------------------------------------------------- dictionary growth
+
+// The Arrow endpoint's opt-in dictionary encoding decides on the FIRST batch
+// which string columns qualify, then keeps one stream-persistent dictionary per
+// column that grows with every later batch. These directed result sets are
+// low-cardinality in the first DuckDB vector and high-cardinality afterwards,
+// so the dictionary passes 2^15 and 2^16 entries mid-stream; every cell must
+// still decode to DuckDB's string (same oracle as the random property; the
+// JSON and msgpack answers of the same SQL are checked along the way).
+func TestVerifC19_DictionaryGrowth(t *testing.T) {
+	e := c19NewEnv(t)
+	var vk *c19Kind
+	var ik *c19Kind
+	for i := range c19Kinds {
+		switch c19Kinds[i].Name {
+		case "varchar":
+			vk = &c19Kinds[i]
+		case "int64":
+			ik = &c19Kinds[i]
+		}
+	}
+	type scen struct {
+		n        int
+		expr     string
+		arrowZ   string
+		withNull bool
+	}
+	scens := []scen{
+		// > 32767 distinct values: past the int16 index range
+		{n: 40000, expr: "CASE WHEN i < 2048 THEN 'h' || CAST(i % 3 AS VARCHAR) ELSE 'h' || CAST(i AS VARCHAR) END"},
+		// > 65535 distinct values: past the uint16 range (indices would wrap)
+		{n: 70000, expr: "CASE WHEN i < 4096 THEN 'k' || CAST(i % 7 AS VARCHAR) ELSE 'k' || CAST(i AS VARCHAR) END", arrowZ: "zstd"},
+		// growth in steps, with NULLs, every value repeated 2x after the first vector
+		{n: 140000, expr: "CASE WHEN i % 11 = 0 THEN NULL WHEN i < 2048 THEN 'r' || CAST(i % 5 AS VARCHAR) ELSE 'r' || CAST(i // 2 AS VARCHAR) END", withNull: true, arrowZ: "lz4"},
+	}
+	seed, _ := strconv.Atoi(os.Getenv("VERIF_SEED"))
+	for si, sc := range scens {
+		// the seed only shifts the sizes a little, so different seeds cross the
+		// boundaries at different batch offsets
+		n := sc.n + (seed%7)*131
+		c := &c19Case{N: n, Dict: true, ArrowZ: sc.arrowZ,
+			Cols:  []c19Col{{Kind: "varchar", Expr: sc.expr, Alias: "s"}, {Kind: "int64", Expr: "i", Alias: "i"}},
+			kinds: []*c19Kind{vk, ik}}
+		c.SQL = fmt.Sprintf("SELECT %s AS \"s\", i AS \"i\" FROM range(%d) t(i) ORDER BY i", sc.expr, n)
+		verifkit.Class(fmt.Sprintf("dictionary-growth-scenario-%d", si))
+		c19RunCase(t, e, c)
+	}
+}
